@@ -63,6 +63,10 @@ func roReadSysctl(iface, key string) string {
 	return string(b)
 }
 
+// roSkipBind: do not test-bind sockets in roPair.  Go's net package caches the zone name -> interface index table
+// for up to 60 s, so right after an interface was re-created under its name a bind to addr%name fails with ENODEV.
+var roSkipBind bool
+
 // roPair creates a veth pair that is up with usable IPv6 link-local addresses on both ends.
 func roPair() (a, b *net.Interface, cleanup func(), err error) {
 	n := os.Getpid() % 50000
@@ -89,6 +93,9 @@ func roPair() (a, b *net.Interface, cleanup func(), err error) {
 		ia, ea := net.InterfaceByName(na)
 		ib, eb := net.InterfaceByName(nb)
 		if ea == nil && eb == nil && checkInterface(ia, ia.Addrs) == nil && checkInterface(ib, ib.Addrs) == nil {
+			if roSkipBind {
+				return ia, ib, cleanup, nil
+			}
 			ca, _, e1 := ndp.Listen(ia, ndp.LinkLocal)
 			if e1 == nil {
 				ca.Close()
@@ -288,5 +295,55 @@ func TestVerifRealOS(t *testing.T) {
 			v = fmt.Sprintf("lookupInterface of a missing interface: want link not ready, got %v", err)
 		}
 		out.Emit(verifh.Case{ID: "realos-link", Input: map[string]any{"kind": "realos-link"}, Tags: []string{"realos:link"}, ImplViolation: v})
+	}
+
+	// ---- the interface is deleted and re-created under its name while a connection is held (new index, new
+	// addresses): the task reports a link change, and the Dialer must come back on the NEW interface, because it looks
+	// the interface up by name at every re-dial (Model/Dialer.v; dialer_looks_up_by_name in Properties/SeamLookup.v).
+	// Thorough tier only: Go's net package caches zone name -> index for up to 60 s, so the real dial() fails with
+	// "bind: no such device" until that cache is refreshed; the Dialer's budget (50 attempts, about 130 s) covers it.
+	if verifh.Thorough() {
+
+		ctx, cancel := context.WithCancel(context.Background())
+		stop := time.AfterFunc(100*time.Second, cancel)
+		d := NewDialer(ifa.Name, NewState(), Monitor, log.New(io.Discard, "", 0))
+		var (
+			calls, oldIndex, newIndex, seenIndex int
+			setup                                string
+		)
+		err := d.Dial(ctx, func(ctx context.Context, dctx *DialContext) error {
+			calls++
+			if calls == 1 {
+				oldIndex = dctx.Interface.Index
+				roSkipBind = true
+				na, _, _, err := roPair() // deletes the pair and creates it again under the same names
+				roSkipBind = false
+				if err != nil {
+					setup = err.Error()
+					return nil
+				}
+				newIndex = na.Index
+				return ErrLinkChange
+			}
+			seenIndex = dctx.Interface.Index
+			return nil
+		})
+		stop.Stop()
+		cancel()
+		var v string
+		tags := []string{"realos:recreate"}
+		switch {
+		case setup != "" || newIndex == oldIndex:
+			tags = []string{"realos:unavailable"}
+		case err != nil:
+			v = fmt.Sprintf("Dial returned %v after the interface was re-created under its name", err)
+		case calls < 2:
+			v = fmt.Sprintf("the interface was deleted and re-created under its name (index %d -> %d) and is ready, but the Dialer did not come back within 100 s", oldIndex, newIndex)
+		case seenIndex != newIndex:
+			v = fmt.Sprintf("after the re-dial the task runs on interface index %d, the interface now has index %d", seenIndex, newIndex)
+		}
+		out.Emit(verifh.Case{ID: "realos-recreate", Input: map[string]any{"kind": "realos-recreate"},
+			Observed: map[string]any{"calls": calls, "old": oldIndex, "new": newIndex, "seen": seenIndex, "setup": setup, "error": fmt.Sprint(err)},
+			Tags:     tags, ImplViolation: v})
 	}
 }
